@@ -26,6 +26,10 @@ import (
 var c02unknown int64 // every unknown-tree case gets its own roster order, hence its own tree id
 
 func c02exec(c *h.Ctx, cs *h.Case) {
+	if len(cs.Ops) > 0 && strings.HasPrefix(cs.Ops[0], "c02 tls ") {
+		c02tlsExec(c, cs)
+		return
+	}
 	f := c04get()
 	var ct c04tree
 	var nodes []*onet.TreeNode
@@ -867,6 +871,7 @@ func c02gen(c *h.Ctx, yield func(*h.Case)) {
 			}
 		}
 	}
+	c02tlsGen(c, yield)
 	// random sequences on bigger fan-outs
 	for i := 0; i < c.Pick(150, 3000); i++ {
 		root := r.Intn(2) == 0
